@@ -672,12 +672,16 @@ func (obj *SparseFloat64Matrix) JointIterator(b ConstMatrix) MatrixJointIterator
   return obj.JOINT_ITERATOR(b)
 }
 func (obj *SparseFloat64Matrix) ITERATOR() *SparseFloat64MatrixIterator {
-  r := SparseFloat64MatrixIterator{*obj.values.ITERATOR(), obj}
+  // start at the first element of the (possibly sliced) matrix
+  k := obj.rowOffset*obj.colMax + obj.colOffset
+  r := SparseFloat64MatrixIterator{*obj.values.ITERATOR_FROM(k), obj}
+  r.clip()
   return &r
 }
 func (obj *SparseFloat64Matrix) ITERATOR_FROM(i, j int) *SparseFloat64MatrixIterator {
   k := obj.index(i, j)
   r := SparseFloat64MatrixIterator{*obj.values.ITERATOR_FROM(k), obj}
+  r.clip()
   return &r
 }
 func (obj *SparseFloat64Matrix) JOINT_ITERATOR(b ConstMatrix) *SparseFloat64MatrixJointIterator {
@@ -698,6 +702,28 @@ type SparseFloat64MatrixIterator struct {
 }
 func (obj *SparseFloat64MatrixIterator) Index() (int, int) {
   return obj.m.ij(obj.SparseFloat64VectorIterator.Index())
+}
+func (obj *SparseFloat64MatrixIterator) Ok() bool {
+  if !obj.SparseFloat64VectorIterator.Ok() {
+    return false
+  }
+  // stop after the last row of a sliced matrix
+  i, _ := obj.Index()
+  return i < obj.m.rows
+}
+func (obj *SparseFloat64MatrixIterator) Next() {
+  obj.SparseFloat64VectorIterator.Next()
+  obj.clip()
+}
+// skip entries of the storage that are not within the columns of a
+// sliced matrix
+func (obj *SparseFloat64MatrixIterator) clip() {
+  for obj.Ok() {
+    if _, j := obj.Index(); j >= 0 && j < obj.m.cols {
+      break
+    }
+    obj.SparseFloat64VectorIterator.Next()
+  }
 }
 func (obj *SparseFloat64MatrixIterator) Clone() *SparseFloat64MatrixIterator {
   return &SparseFloat64MatrixIterator{*obj.SparseFloat64VectorIterator.Clone(), obj.m}
